@@ -136,6 +136,34 @@ def run(ctx):
                     cases.append(("JDesCompact97 %s %s %s %s %s %s" % (J.c_table(rows), c_hex(tok), J.c_keysrc(pub_key), c_opt(None if safe else pl, c_hex),
                                                                       J.c_algs([alg]), J.c_compact_result(r)),
                                   {"fn": "deserialize_compact97", "what": alg}))
+        # ---------- ES* name x EC curve x hash, signed with pyca directly: joserfc and the reference must agree
+        from cryptography.hazmat.primitives.asymmetric import ec as _ec
+        from cryptography.hazmat.primitives import hashes as _hs
+        from cryptography.hazmat.primitives.asymmetric.utils import decode_dss_signature as _dds
+        ES = {"ES256": ("P-256", "sha256"), "ES384": ("P-384", "sha384"), "ES512": ("P-521", "sha512"), "ES256K": ("secp256k1", "sha256")}
+        for name, (crv, hname) in ES.items():
+            for kn in ("p256", "p384", "p521", "k256"):
+                k = K[kn]
+                pub_key = J.pubkey_of(k)
+                pub_jwk = k.as_dict(private=False)
+                L = (k.curve_key_size + 7) // 8
+                for hn, hcls in (("sha256", _hs.SHA256), ("sha384", _hs.SHA384), ("sha512", _hs.SHA512)):
+                    si = (REF.b64u_enc(('{"alg":"%s"}' % name).encode()) + "." + REF.b64u_enc(b"matrix")).encode()
+                    r_, s_ = _dds(k.private_key.sign(si, _ec.ECDSA(hcls())))
+                    tok = si.decode() + "." + REF.b64u_enc(r_.to_bytes(L, "big") + s_.to_bytes(L, "big"))
+                    ctx.note_case(("ec-matrix", name, kn, hn))
+                    note("ec-matrix:%s" % ("match" if (k.curve_name == crv and hn == hname) else "mismatch"))
+                    ref = call(REF.verify_compact, tok, pub_jwk)
+                    rec.take()
+                    r = call(jws.deserialize_compact, tok, pub_key, [name])
+                    rows, _ = rec.take()
+                    if (ref[0] == "ok") != (r[0] == "ok") or (ref[0] == "ok") != (k.curve_name == crv and hn == hname):
+                        ctx.violation({"kind": "ec-alg-curve", "alg": name, "curve": k.curve_name, "hash": hn},
+                                      "header says %s, key on %s, signature made with %s: reference %s, joserfc %s (%r)" % (
+                                          name, k.curve_name, hn, "accepts" if ref[0] == "ok" else "rejects", "accepts" if r[0] == "ok" else "rejects", r[1]),
+                                      {"dir": "reference->joserfc", "token": tok, "key": pub_jwk, "alg": name})
+                    cases.append(("JDesCompact %s %s %s %s %s" % (J.c_table(rows), c_hex(tok.encode()), J.c_keysrc(pub_key), J.c_algs([name]), J.c_compact_result(r)),
+                                  {"fn": "deserialize_compact", "what": "ecmatrix-%s:%s:%s" % (name, kn, hn)}))
         # ---------- negative controls of the reference itself (strictness) against joserfc-made signatures
         for alg, kn in (("PS256", "rsa"), ("ES256", "p256"), ("ES512", "p521")):
             prv_jwk, pub_jwk = jwks(kn)
